@@ -16,9 +16,61 @@ argument the list of path conditions that hold there: ``[(test expr, polarity), 
 import ast
 
 
+NORETURN = set()        # names of functions / methods of the analysed tree that never return normally (configure())
+
+
+def _always_raises(stmts, depth=0):
+    """every path through the statement list ends in raise / <generator>.throw(...) (no return, no fall-through)"""
+    if not stmts:
+        return False
+    for s in stmts:
+        for n in ast.walk(s):
+            if isinstance(n, ast.Return):
+                return False
+    last = stmts[-1]
+    if isinstance(last, ast.Raise) or _is_throw(last):
+        return True
+    if isinstance(last, ast.If) and last.orelse:
+        return _always_raises(last.body, depth + 1) and _always_raises(last.orelse, depth + 1)
+    return False
+
+
+def configure(repo):
+    """collects the helpers of the tree that always raise (send the token back and raise; throw into the generator):
+    a call to one of them ends a path like a raise does"""
+    NORETURN.clear()
+    found = {}
+    for m in repo.modules.values():
+        for name, fn in m.functions.items():
+            found[name] = fn
+        for cname, cnode in m.classes.items():
+            for n in cnode.body:
+                if isinstance(n, ast.FunctionDef):
+                    found.setdefault(n.name, n)
+    for _ in range(3):
+        for name, fn in found.items():
+            body = [b for b in fn.body if not (isinstance(b, ast.Expr) and isinstance(b.value, ast.Constant))]
+            # overridable hooks (a body that is only `raise X`) are not helpers: subclasses return from them
+            if len(body) == 1 and isinstance(body[0], ast.Raise):
+                continue
+            if name.startswith("_") and not name.startswith("__") and _always_raises(body):
+                NORETURN.add(name)
+
+
+def _is_throw(s):
+    """`<generator>.throw(...)` as a statement: the exception comes back out of the call on every path (the lexer
+    converts it to LexerError; an exhausted generator re-raises it)"""
+    if not (isinstance(s, ast.Expr) and isinstance(s.value, ast.Call)):
+        return False
+    f = s.value.func
+    if isinstance(f, ast.Attribute):
+        return f.attr == "throw" or f.attr in NORETURN
+    return isinstance(f, ast.Name) and f.id in NORETURN
+
+
 def _terminates(stmts):
     for s in stmts:
-        if isinstance(s, (ast.Return, ast.Raise, ast.Continue, ast.Break)):
+        if isinstance(s, (ast.Return, ast.Raise, ast.Continue, ast.Break)) or _is_throw(s):
             return True
         if isinstance(s, ast.If) and s.orelse and _terminates(s.body) and _terminates(s.orelse):
             return True
@@ -30,13 +82,20 @@ class Taint:
         self.is_source, self.is_sink = is_source, is_sink
         self.hits = []          # (sink call, conds, tainted names at that point)
 
+    NONTEXT = ("len", "isinstance", "issubclass", "bool", "ord", "hash", "id", "type", "hasattr", "callable")
+
     def tainted(self, e, env):
-        for n in ast.walk(e):
-            if isinstance(n, ast.Name) and n.id in env:
-                return True
-            if self.is_source(n):
-                return True
-        return False
+        """does the value of e carry (text of) a source?  A length, a type test or a comparison does not."""
+        if isinstance(e, ast.Compare):
+            return False
+        if isinstance(e, ast.Call) and isinstance(e.func, ast.Name) and e.func.id in self.NONTEXT:
+            return False
+        if isinstance(e, ast.Name) and e.id in env:
+            return True
+        if self.is_source(e):
+            return True
+        return any(self.tainted(c, env) for c in ast.iter_child_nodes(e) if isinstance(c, (ast.expr, ast.keyword, ast.comprehension, ast.FormattedValue))
+                   or isinstance(c, ast.AST) and not isinstance(c, (ast.expr_context, ast.operator, ast.boolop, ast.unaryop, ast.cmpop)))
 
     def scan_expr(self, e, env, conds):
         for n in ast.walk(e):
@@ -113,7 +172,7 @@ class Taint:
                     env.add(s.target.id)
             elif isinstance(s, ast.AnnAssign) and isinstance(s.target, ast.Name) and s.value is not None:
                 (env.add if self.tainted(s.value, env) else env.discard)(s.target.id)
-            if isinstance(s, (ast.Return, ast.Raise, ast.Continue, ast.Break)):
+            if isinstance(s, (ast.Return, ast.Raise, ast.Continue, ast.Break)) or _is_throw(s):
                 return None
         return env
 
@@ -201,7 +260,7 @@ def stmts_with_conds(stmts, conds=()):
             out += stmts_with_conds(s.body, conds)
             continue
         out.append((s, list(conds)))
-        if isinstance(s, (ast.Return, ast.Raise, ast.Continue, ast.Break)):
+        if isinstance(s, (ast.Return, ast.Raise, ast.Continue, ast.Break)) or _is_throw(s):
             break
     return out
 
